@@ -426,17 +426,27 @@ pub fn c15_child(spec_json: &str) -> i32 {
     // watchdog: report "fault never reached" instead of running for ever when nothing fails
     let has_natural = case.natural != Natural::None;
     let has_fault = case.fault.is_some();
-    std::thread::spawn(move || loop {
+    std::thread::spawn(move || {
+        // a worker thread that disappears for whatever reason (not only through the armed fault)
+        // starts the deadline as well
+        let mut max_tasks = 0usize;
+        loop {
         std::thread::sleep(Duration::from_millis(50));
+        let tasks = std::fs::read_dir("/proc/self/task").map(|d| d.count()).unwrap_or(0);
+        max_tasks = max_tasks.max(tasks);
+        if tasks < max_tasks && real_now() - t_start > 0.5 && !std::path::Path::new("/run/verif-fired").exists() {
+            let _ = std::fs::write("/run/verif-fired", b"1");
+        }
         let fired = dv::fault_fired_at().is_some();
         // tell the parent (which looks into this namespace through /proc/<pid>/root) that the
         // failure has happened: its 30 s deadline starts now
         if (fired || NATURAL_AT.load(std::sync::atomic::Ordering::SeqCst) > 0 || (has_natural && !has_fault && real_now() - t_start > 0.0 && NATURAL_IMMEDIATE.load(std::sync::atomic::Ordering::SeqCst))) && !std::path::Path::new("/run/verif-fired").exists() {
             let _ = std::fs::write("/run/verif-fired", b"1");
         }
-        if real_now() - t_start > 25.0 && has_fault && !fired && !has_natural {
+        if real_now() - t_start > 25.0 && has_fault && !fired && !has_natural && tasks >= max_tasks {
             println!("{{\"not_fired\":true}}");
             std::process::exit(3);
+        }
         }
     });
     clock_bound_d::thread_manager::run(1000, phc_info);
@@ -632,7 +642,7 @@ impl Property for C15 {
     const ID: &'static str = "C15";
     const LEVEL: &'static str = "fault_enumeration";
     fn rule() -> String {
-        "enumerated: worker in {poller, writer} x named fault point (poller: startup, loop top, after the clock read, before/after send, before/after recv; writer: startup, after ShmWriter::new, loop top, after a message, inside process_clock_update / process_missing_clock_update, before/after the segment write) x n-th time the point is reached (0,1 quick; 0,1,2 thorough) x kind (panic; early return where that ends the thread) x chronyd (absent; silent = 3 s of timeouts per query; answering), plus a writer that lingers 0.5-2.5 s at the fault point before dying during a chronyd outage (the poller is then in the middle of its iteration, not waiting on its mailbox), plus an answering chronyd whose replies take 150-950 ms (quick: 700 ms) x five fault points, plus one worker failing at start-up / early while the other is held up for 400 ms (thorough: 50-1500 ms) at one of its own points, plus hook-free natural faults (/run/clockbound is a regular file; PHC error-bound file unparsable from the start / turning unparsable after 1.5 s). Generated in addition: random combinations with random reply delays. Each case: thread_manager::run() in a child process inside a private mount namespace. Oracle: run() returns within 12 s of the failure (legitimate worst case ~4 s: 1 s poll sleep + 3 x 1 s chrony timeouts) and no worker thread is left alive; a child still running 13 s after the failure (or 47 s after start when the failure never happens) is killed and reported as lingering. Non-trivial: iteration >= 1, an answering chronyd, or a natural fault.".into()
+        "enumerated: worker in {poller, writer} x named fault point (poller: startup, loop top, after the clock read, before/after send, before/after recv; writer: startup, after ShmWriter::new, loop top, after a message, inside process_clock_update / process_missing_clock_update, before/after the segment write) x n-th time the point is reached (0,1 quick; 0,1,2 thorough) x kind (panic; early return where that ends the thread) x chronyd (absent; silent = 3 s of timeouts per query; answering), plus a writer that lingers 0.5-2.5 s at the fault point before dying during a chronyd outage (the poller is then in the middle of its iteration, not waiting on its mailbox), plus an answering chronyd whose replies take 150-950 ms (quick: 700 ms) x five fault points, plus one worker failing at start-up / early while the other is held up for 400 ms (thorough: 50-1500 ms) at one of its own points, plus a writer held up for 10 s (its mailbox fills with ten polls' worth of messages) before the poller fails, plus hook-free natural faults (/run/clockbound is a regular file; PHC error-bound file unparsable from the start / turning unparsable after 1.5 s). Generated in addition: random combinations with random reply delays. Each case: thread_manager::run() in a child process inside a private mount namespace. Oracle: run() returns within 12 s of the failure (legitimate worst case ~4 s: 1 s poll sleep + 3 x 1 s chrony timeouts) and no worker thread is left alive; a child still running 13 s after the failure (or 47 s after start when the failure never happens) is killed and reported as lingering. Non-trivial: iteration >= 1, an answering chronyd, or a natural fault.".into()
     }
     fn assumptions() -> Vec<String> {
         vec!["promptness is decided with a 12 s deadline (3x the legitimate worst case); interleavings of the death notifications are those the OS scheduler produces plus the injected reply delays".into()]
@@ -712,6 +722,18 @@ impl Property for C15 {
                     });
                 }
             }
+        }
+        // a worker that is held up for a long time (10 s: ten polls' worth of messages pile up in its
+        // mailbox) while the other one then fails: the notifications must still get through
+        for (fault, nth, stall_at) in [("poller:loop_top", 11u32, "writer:after_message"), ("poller:before_send", 12, "writer:loop_top")] {
+            cases.push(FaultCase {
+                fault: Some((fault.to_string(), nth, true)),
+                chrony: ChronyMode::Absent,
+                natural: Natural::None,
+                reply_delay_ms: 0,
+                fault_delay_ms: 0,
+                stall: Some((stall_at.to_string(), 10_000)),
+            });
         }
         for chrony in [ChronyMode::Absent, ChronyMode::Answering, ChronyMode::Silent] {
             if tier == Tier::Quick && chrony == ChronyMode::Silent {
